@@ -12,6 +12,7 @@ import Bubus.Proofs.PathInv
 import Bubus.Proofs.NoSkip
 import Bubus.Proofs.RunLoop
 import Bubus.Proofs.Expect
+import Bubus.Proofs.Wal
 namespace Bubus.Examples
 open Bubus
 
@@ -119,5 +120,15 @@ example : ((run {} expectRun).map fun w => ((w.bus 0).handlers.map (·.kind), w.
 
 example : ((run {} (expectRun ++ [.tick 5, .expectTimeout 0, .expectEnd 0 none])).map fun w =>
       ((w.bus 0).handlers.map (·.kind), w.waiter 0)) = some ([.async], .idle) := by decide
+
+/-- non-vacuity of the C17 log invariant: a reachable state of a WAL bus with a line in its log (the line's event was
+    taken by the bus) -/
+def walRun : List Label :=
+  [.newBus 0 false (some 50) true, .on 0 1 0 .sync, .newEvent 0 1 none 0, .rlCreate 0, .dispatch .ext 0 0 .ok,
+   .take (.rl 0) 0 0, .rlWake 0, .peBegin (.rl 0) 0 0, .hSched (.rl 0) 0 0 0 0, .hStart 0, .hEnd 0 .ret,
+   .hFinish 0 .completed, .walWrite (.rl 0) 0 0 true, .peEnd (.rl 0) 0 0]
+
+example : ((run {} walRun).map fun w => ((w.bus 0).walLines, (w.bus 0).taken, (w.bus 0).enq)) = some ([0], [0], [0]) := by
+  decide
 
 end Bubus.Examples
